@@ -29,6 +29,24 @@ def env_for(wt, extra=None):
     return e
 
 
+def rebase_patch(wt, patch):
+    """The patch no longer applies textually to /repo HEAD (a later fix touched nearby lines): try a 3-way merge
+    in the scratch worktree; on success return the path of the equivalent patch against HEAD."""
+    import subprocess as sp
+
+    r = sp.run(["git", "-C", wt, "apply", "--3way", patch], capture_output=True, text=True)
+    unmerged = sp.run(["git", "-C", wt, "diff", "--name-only", "--diff-filter=U"], capture_output=True, text=True).stdout.strip()
+    out = None
+    if r.returncode == 0 and not unmerged:
+        d = sp.run(["git", "-C", wt, "diff", "HEAD"], capture_output=True, text=True).stdout
+        if d.strip():
+            os.makedirs(os.path.join(wt, ".tmp"), exist_ok=True)
+            out = os.path.join(wt, ".tmp", "rebased.diff")
+            open(out, "w").write(d)
+    sp.run(["git", "-C", wt, "reset", "-q", "--hard"], capture_output=True)
+    return out
+
+
 def one(name, extra_checks):
     d = os.path.join(SEEDED, name)
     prop = re.match(r"(C\d+)", name).group(1)
@@ -36,9 +54,12 @@ def one(name, extra_checks):
     os.rmdir(wt)
     # apply to /repo HEAD if possible, else to the (older) commit the change was written against
     head = None
+    patch = os.path.join(d, "patch.diff")
     for base in ("HEAD", "8bb5fbf", "5450e19", "22a8020"):
         sh(["git", "-C", "/repo", "worktree", "add", "-q", "--detach", wt, base])
-        if sh(["git", "-C", wt, "apply", "--check", os.path.join(d, "patch.diff")]).returncode == 0:
+        if base == "HEAD" and sh(["git", "-C", wt, "apply", "--check", patch]).returncode != 0:
+            patch = rebase_patch(wt, patch) or patch
+        if sh(["git", "-C", wt, "apply", "--check", patch]).returncode == 0:
             head = sh(["git", "-C", wt, "rev-parse", "--short", "HEAD"]).stdout.strip()
             break
         sh(["git", "-C", "/repo", "worktree", "remove", "--force", wt])
@@ -49,7 +70,7 @@ def one(name, extra_checks):
         demo = os.path.join(d, "demo.py")
         p = sh(["/venv/bin/python", demo], env=env_for(wt), cwd=wt, timeout=600)
         meta["demo_without_patch_exit"] = p.returncode
-        p = sh(["git", "-C", wt, "apply", os.path.join(d, "patch.diff")])
+        p = sh(["git", "-C", wt, "apply", patch])
         meta["patch_applies"] = p.returncode == 0
         if p.returncode != 0:
             # written against an earlier /repo HEAD: keep the earlier verification record
